@@ -506,6 +506,19 @@ def options_for(rng, case, ci, ncases, tier):
     return opts
 
 
+def abs_tie(drows, opt):
+    """two rows whose differences on a sort key are +d and -d (d != 0)"""
+    avg = 0 if opt.get("fields") else opt.get("avg", 0)
+    for k in (opt.get("sort") or ("total" if not avg else "total_avg" if avg == 1 else "self_avg")).split(","):
+        k = canon_key(k, opt).replace("_", "-")
+        if k == "func" or k not in ROWIDX:
+            continue
+        ds = [i64(p[ROWIDX[k]] - b[ROWIDX[k]]) for b, p in drows]
+        if any(d != 0 and -d in ds for d in ds):
+            return True
+    return False
+
+
 def kind_of(opt):
     if opt.get("task"):
         return "task"
@@ -602,7 +615,8 @@ def run(ctx):
         return C.finish(ctx)
 
     st = {"disagree": 0, "monitor": 0, "cells": 0, "exact_cells": 0, "rows": 0, "sorted_checked": 0,
-          "oracle_rows": 0, "telescope_checked": 0, "selfdiff_checked": 0, "invalid_key": 0}
+          "oracle_rows": 0, "telescope_checked": 0, "selfdiff_checked": 0, "invalid_key": 0,
+          "diff_order_ambiguous": 0}
     reported = [0]
     samples = []
     distinct = set()
@@ -739,6 +753,12 @@ def run(ctx):
             report("monitor", ci, o, bad[0], {"theorem": bad[1], "impl_table": impl[:12],
                                               "model_table": (model or [])[:12]}, False)
             continue
+        if model is not None and impl != model and kind in ("diff", "difffull") and not o.get("noabs") \
+                and o.get("column") in (None, 2) and sorted(impl) == sorted(model) and abs_tie(mr, o):
+            # |+d| = |-d|: cmp_diff says "smaller" in both directions (utils/report.c:363-367), the row
+            # order then depends on the shape of the red-black tree, which the list model does not have
+            st["diff_order_ambiguous"] += 1
+            continue
         if model is None or fields != want_fields or impl != model:
             report("corr", ci, o, "printed table differs from the model's",
                    {"fields_printed": fields, "fields_expected": want_fields, "impl_table": impl[:14],
@@ -762,6 +782,7 @@ def run(ctx):
         "oracle_rows_checked": st["oracle_rows"], "telescoping_sums_checked": st["telescope_checked"],
         "sorted_tables_checked": st["sorted_checked"], "self_diffs_checked": st["selfdiff_checked"],
         "invalid_sort_key_agreed": st["invalid_key"],
+        "diff_tables_compared_as_multisets_because_of_abs_ties": st["diff_order_ambiguous"],
         "model_code_disagreements": st["disagree"], "monitor_failures_on_impl": st["monitor"],
         "exhaustive": False,
         "samples": samples,
